@@ -1,4 +1,5 @@
 import MidnightZK.Proofs.C08.Expose
+import MidnightZK.Proofs.C08.BigBound
 /-!
 # C08 — the off-circuit public-input encoding is exactly what the circuit binds
 
@@ -209,6 +210,33 @@ limbs, so `normalize` is the identity). -/
 theorem biguint_expose_agrees (path : Path) (hp : path = .constrain ∨ path = .assign)
     (nb v : Nat) (hnb : 1 ≤ nb) : cells path (.big nb v) = encode (.big nb v) :=
   cells_eq_encode_aux path _ (agree_big_assign path hp nb v hnb)
+
+/-- BigUints that are the result of in-circuit arithmetic are published (ZKIR `Publish`) with the
+bound `nb_bits()` derived from their limb bounds. Whatever the (non-degenerate) limb bounds are,
+`normalize` exposes exactly `⌈nb_bits/96⌉` limbs — the number the off-circuit encoder emits for
+that bound — in both of its branches (already normalised: the limbs themselves; otherwise
+`nb_bits.div_ceil(LOG2_BASE)` fresh limbs). -/
+theorem biguint_derived_bound_count (w : Nat) (hw : 0 < w) (bounds : List Nat) (hne : bounds ≠ [])
+    (hlast : 1 ≤ bounds.getLast!) :
+    exposedLimbCount w bounds = ceilDiv (nbBitsOf w bounds) w :=
+  exposedLimbCount_eq w hw bounds hne hlast
+
+/-- Non-vacuity, and why the most significant bound must be non-zero: with a zero top bound (a
+value padded by `resize`) the limb count and the derived bound disagree; the gadget never
+returns such a value (`resize` is only used internally, before `normalize`/`select`). -/
+example : exposedLimbCount 96 [96, 97] = 3 ∧ ceilDiv (nbBitsOf 96 [96, 97]) 96 = 3 ∧
+    exposedLimbCount 96 [96, 0] = 2 ∧ ceilDiv (nbBitsOf 96 [96, 0]) 96 = 1 := by decide +kernel
+
+/-- `AssignedMsm` / `AssignedAccumulator` exposure (each base through the curve chip, then the
+scalar cells): the bound cells are the off-circuit encoding, also in the committed-scalars
+variant (plain part and committed part separately). -/
+theorem expose_accumulator_agrees (q : Nat) (P : FParams) (hq : 2 ^ (P.w + 1) ≤ q) (hn : 1 ≤ P.n)
+    (l r : Msm) :
+    cellsAcc q P l r = encAcc q P l r ∧ cellsAccCommitted q P l r = encAccCommitted q P l r :=
+  ⟨cellsAcc_eq q P hq hn l r, cellsAccCommitted_eq q P hq hn l r⟩
+
+example : cellsAcc q ⟨Gen.blsBaseModulus, 56, 7⟩ ⟨[none], [3], []⟩ ⟨[], [], [4]⟩ =
+    encAcc q ⟨Gen.blsBaseModulus, 56, 7⟩ ⟨[none], [3], []⟩ ⟨[], [], [4]⟩ := by decide +kernel
 
 /-! ## What the instance rows bind; the recorded number of public inputs -/
 
